@@ -8,7 +8,9 @@
 
 use std::io::BufRead;
 
+use naijascript::analysis::cfg;
 use naijascript::analysis::facts::ProgramFacts;
+use naijascript::analysis::limits::{self, AnalysisCaps};
 use naijascript::analysis::opt::OptimizationPlan;
 use naijascript::arena::{self, Arena, scratch_arena};
 use naijascript::diagnostics::Severity;
@@ -40,6 +42,84 @@ pub fn stmt_start(stmt: StmtRef) -> usize {
     }
 }
 
+const HUGE: AnalysisCaps = AnalysisCaps {
+    max_functions: u32::MAX,
+    max_locals: u32::MAX,
+    max_scopes: u32::MAX,
+    max_statements: u32::MAX,
+    max_total_ops: u32::MAX,
+    max_ops_per_function: u32::MAX,
+    max_total_blocks: u32::MAX,
+    max_blocks_per_function: u32::MAX,
+    max_direct_user_calls: u32::MAX,
+    max_summary_events: u64::MAX,
+    max_liveness_events: u64::MAX,
+};
+
+fn caps_from(j: &J) -> Option<AnalysisCaps> {
+    let a = j.as_array()?;
+    if a.len() != 11 {
+        return None;
+    }
+    let g = |i: usize| a[i].as_u64().unwrap_or(u64::MAX);
+    let g32 = |i: usize| u32::try_from(g(i)).unwrap_or(u32::MAX);
+    Some(AnalysisCaps {
+        max_functions: g32(0),
+        max_locals: g32(1),
+        max_scopes: g32(2),
+        max_statements: g32(3),
+        max_total_ops: g32(4),
+        max_ops_per_function: g32(5),
+        max_total_blocks: g32(6),
+        max_blocks_per_function: g32(7),
+        max_direct_user_calls: g32(8),
+        max_summary_events: g(9),
+        max_liveness_events: g(10),
+    })
+}
+
+/// The analysis count vector of a program, in the staged order of the limits, with the per-function
+/// data the derived bounds are computed from, and the implementation's own metric names.
+fn counts_json(src: &str) -> J {
+    let arena = Arena::new(MAIN_ARENA).unwrap();
+    let lexer = Lexer::new(src, &arena);
+    let mut parser = Parser::new(lexer, &arena);
+    let (root, perr) = parser.parse_program();
+    if !perr.diagnostics.is_empty() {
+        return json!({"st": "parse_error"});
+    }
+    naijascript::verif::set_analysis_caps(Some(HUGE));
+    let mut resolver = Resolver::new(&arena);
+    resolver.resolve(root);
+    naijascript::verif::set_analysis_caps(None);
+    if resolver.errors.has_errors() {
+        return json!({"st": "static_error"});
+    }
+    let facts = &resolver.facts;
+    let counts = cfg::count_program(facts, &arena);
+    let per_fn: Vec<J> = (0..facts.functions.len())
+        .map(|i| {
+            let r = facts.local_range(naijascript::analysis::ids::FunctionId(i as u32));
+            json!([counts.function_blocks[i], counts.function_ops[i], r.end - r.start])
+        })
+        .collect();
+    // learn the metric names: with every other cap huge and one cap at 0, the first exceeded limit is that metric
+    let mut names = Vec::new();
+    for k in 0..11 {
+        let mut v: Vec<J> = (0..11).map(|_| json!(u64::MAX)).collect();
+        v[k] = json!(0);
+        let caps = caps_from(&J::Array(v)).unwrap();
+        naijascript::verif::set_analysis_caps(None);
+        let name = limits::first_exceeded_limit(facts, &counts, caps).map(|l| l.metric);
+        names.push(json!(name));
+    }
+    json!({"st": "ok",
+           "counts": [facts.functions.len(), facts.locals.len(), facts.scopes.len(), facts.stmt_effects.len(), counts.total_ops,
+                      counts.function_ops.iter().copied().max().unwrap_or(0), counts.total_blocks,
+                      counts.function_blocks.iter().copied().max().unwrap_or(0), facts.user_calls.len()],
+           "per_function": per_fn, "names": names})
+}
+
 fn plan_json(facts: &ProgramFacts, plan: Option<&OptimizationPlan>) -> J {
     let Some(plan) = plan else { return J::Null };
     let mut stmts = Vec::new();
@@ -59,6 +139,7 @@ fn plan_json(facts: &ProgramFacts, plan: Option<&OptimizationPlan>) -> J {
 }
 
 struct Req<'a> {
+    caps: Option<AnalysisCaps>,
     src: &'a str,
     filename: &'a str,
     ev: u32,
@@ -85,8 +166,10 @@ fn run_lib(req: &Req, frame_on: bool, plan_on: bool) -> J {
         }
         return r;
     }
+    naijascript::verif::set_analysis_caps(req.caps);
     let mut resolver = Resolver::new(&arena);
     resolver.resolve(root);
+    naijascript::verif::set_analysis_caps(None);
     let mut diags = diags_json(&resolver.errors, src);
     if resolver.errors.has_errors() {
         let mut r = json!({"st": "static_error", "diags": diags});
@@ -112,7 +195,8 @@ fn run_lib(req: &Req, frame_on: bool, plan_on: bool) -> J {
         .map_or("done", |d| d.message);
     diags.extend(diags_json(&rt.errors, src));
     let printed: Vec<String> = rt.output.iter().map(|v| v.to_string()).collect();
-    let mut r = json!({"st": st, "out": out, "diags": diags, "events": events_json(evs), "plan": pj, "printed": printed});
+    let mut r = json!({"st": st, "out": out, "diags": diags, "events": events_json(evs), "plan": pj, "printed": printed,
+                       "plan_present": plan.is_some()});
     if req.render {
         let mut stdout = resolver.errors.render_ansi(src, req.filename).to_string();
         for p in r["printed"].as_array().unwrap() {
@@ -196,6 +280,7 @@ pub fn worker() {
         let id = j["id"].clone();
         let src = j["src"].as_str().unwrap_or("");
         let req = Req {
+            caps: caps_from(&j["caps"]),
             src,
             filename: j["filename"].as_str().unwrap_or("t.ns"),
             ev: j["ev"].as_u64().unwrap_or(0) as u32,
@@ -210,6 +295,7 @@ pub fn worker() {
             send(&mut out, &json!({"begin": id, "mode": mode}));
             let res = guarded(|| match mode.as_str() {
                 "cli" => run_cli(&req),
+                "counts" => counts_json(req.src),
                 m => {
                     let b = m.as_bytes();
                     run_lib(&req, b[0] == b'f', b.get(1) == Some(&b'p'))
